@@ -48,7 +48,7 @@ type BinaryIndex struct {
 	Description    string
 	Homepage       string
 	DescriptionMD5 string   `control:"Description-md5"`
-	Tags           []string `delim:", "`
+	Tags           []string `control:"Tag" delim:"," strip:"\n\r\t "`
 	Section        string
 	Priority       string
 	Filename       string
